@@ -571,11 +571,9 @@ func (m *Manager) HandleStreamData(streamID uint64, flags uint8, data []byte) er
 		return fmt.Errorf("unknown stream %d", streamID)
 	}
 
-	// Handle FIN flags
-	if flags&protocol.FlagFinWrite != 0 {
-		stream.HandleRemoteFinWrite()
-	}
-
+	// Queue the frame's data before signalling the end of the remote write
+	// side: a reader woken by the FIN signal drains the buffer and then
+	// reports EOF, so data pushed after the signal could be lost.
 	if len(data) > 0 {
 		if err := stream.PushData(data); err != nil {
 			return err
@@ -584,6 +582,11 @@ func (m *Manager) HandleStreamData(streamID uint64, flags uint8, data []byte) er
 		if m.onStreamData != nil {
 			m.onStreamData(stream, data)
 		}
+	}
+
+	// Handle FIN flags
+	if flags&protocol.FlagFinWrite != 0 {
+		stream.HandleRemoteFinWrite()
 	}
 
 	return nil
